@@ -8,7 +8,7 @@ from __future__ import annotations
 
 from itertools import product
 
-from .. import progcheck
+from .. import impl, progcheck
 from ..common import pmap, permuted
 from ..enum import ops as eops
 from ..enum import shapes as esh
@@ -52,7 +52,12 @@ def _work(units):
             _, tag, p, envs = u
             cond = ("if", p, ("ret", (("T", "1"),)), ("else", ("ret", (("F", "1"),))))
             ast = esh.prog_of(cond)
+            impl.build('def warmup { return "a" weighted 1 } /* TODO')  # (whatever was compiled before: an unterminated comment)
             progcheck.check_prog(acc, ast, [dict(e, u="id7") for e in envs], "op:" + tag, want_sample=False)
+            for sep in ("\x0c", "\x0b ", "\r\n\t"):
+                t2 = rp.render(ast, sep=sep)
+                if rp.classify(t2) == ("accept", ast):
+                    progcheck.check_prog(acc, ast, [dict(e, u="id7") for e in envs][:4], "op-ws:" + tag, text=t2)
             # and the same predicate with no else: false must be the unroutable error
             ast2 = esh.prog_of(("if", p, ("ret", (("T", "1"),)), None))
             progcheck.check_prog(acc, ast2, [dict(e, u="id7") for e in envs], "op-noelse:" + tag)
